@@ -25,7 +25,7 @@ SETS = [
     {"default": "en-US", "names": ["en-US", "en", "zh-Hant"]},
 ]
 HEADERS = [None, "fr", "fr-CA, fr;q=0.9, en;q=0.8", "fr-CA,fr;q=0.9,en;q=0.8", "de-CH, de;q=0.7", "xx, zz;q=0.5", "*, fr;q=0.8", "en_US.UTF-8, C, de", "*",
-           "en-US,en;q=0.9", "not a header;;;", "zh-TW, zh-Hant;q=0.9, en;q=0.1", "xx, fr", "  en  ", ", de", "es,,fr", "fr_FR, zh-Hant, en", "*;q=0.1, zh-Hant"]
+           "en-US,en;q=0.9", "not a header;;;", "zh-TW, zh-Hant;q=0.9, en;q=0.1", "xx, fr", "  en  ", ", de", "es,,fr", "fr_FR, zh-Hant, en", "*;q=0.1, zh-Hant", "zh-Hans, en;q=0.5", "zh-Latn-TW, fr-Arab, en-Cyrl"]
 INVALID = ["xx", "EN", "", "fr-", "en_US", "default"]
 DEFAULT_COOKIE = "i18n_pref_locale"
 
